@@ -90,6 +90,7 @@ class Decision(object):
         self.exprs = {}         # target text -> last non-constant value expression assigned
         self.augs = []          # (target text, value expr) of augmented assignments executed
         self.result = None      # ('return', v) | ('raise', text) | None
+        self.trace = []         # (if statement, branch taken) in execution order
 
     def test(self, t):
         if isinstance(t, ast.UnaryOp) and isinstance(t.op, ast.Not):
@@ -101,6 +102,8 @@ class Decision(object):
         txt = norm(t)
         if txt in self.facts:
             return self.facts[txt]
+        if txt in self.values and not isinstance(t, ast.Compare):
+            return bool(self.values[txt])
         if isinstance(t, ast.Name) and t.id in getattr(self, "inline", {}):
             return self.test(self.inline[t.id])
         if isinstance(t, ast.Compare) and len(t.ops) == 1:
@@ -137,9 +140,14 @@ class Decision(object):
             if self.result is not None:
                 return
             if isinstance(st, ast.If):
-                self.run(st.body if self.test(st.test) else st.orelse)
+                taken = self.test(st.test)
+                self.trace.append((st, taken))
+                self.run(st.body if taken else st.orelse)
             elif isinstance(st, ast.Assign) and len(st.targets) == 1 and isinstance(st.value, ast.Constant):
                 self.env[norm(st.targets[0])] = st.value.value
+            elif isinstance(st, ast.Assign) and len(st.targets) == 1 and (norm(st.value) in self.values or norm(st.value) in self.facts) and norm(st.targets[0]) in self.values:
+                # a tracked variable takes the value of another tracked expression
+                self.values[norm(st.targets[0])] = self.values[norm(st.value)] if norm(st.value) in self.values else self.facts[norm(st.value)]
             elif isinstance(st, ast.Assign) and len(st.targets) == 1:
                 self.exprs[norm(st.targets[0])] = st.value
                 self.env.pop(norm(st.targets[0]), None)
